@@ -18,6 +18,7 @@ from ..entity_query_language.symbolic import (
     The,
     Variable,
     Literal,
+    Entity,
 )
 
 from .dao import get_dao_class
@@ -376,6 +377,11 @@ class EQLTranslator:
 
     sql_query: Optional[Select] = None
     join_manager: JoinManager = field(default_factory=JoinManager)
+    disjunction_depth: int = 0
+    """
+    The number of disjunctions around the expression that is currently translated. A comparison that would be translated
+    to a JOIN restricts the whole statement, hence it cannot be an operand of a disjunction.
+    """
 
     @property
     def quantifier(self) -> SymbolicExpression:
@@ -394,6 +400,10 @@ class EQLTranslator:
 
     def translate(self) -> None:
         """Translate the EQL query to SQL."""
+        if not isinstance(self.select_like, Entity):
+            raise UnsupportedQueryTypeError(
+                f"Only entity(...) queries can be translated, got {type(self.select_like)}"
+            )
         dao_class = get_dao_class(self.select_like.selected_variable._type_)
         if dao_class is None:
             raise MissingDAOError(
@@ -461,7 +471,11 @@ class EQLTranslator:
         :param query: EQL query
         :return: SQL expression or None if all parts are handled via JOINs.
         """
-        parts = self._collect_logical_parts(query)
+        self.disjunction_depth += 1
+        try:
+            parts = self._collect_logical_parts(query)
+        finally:
+            self.disjunction_depth -= 1
         return self._combine_logical_parts(parts, or_)
 
     def _collect_logical_parts(self, query: Any) -> List[Any]:
@@ -510,6 +524,7 @@ class EQLTranslator:
         :param query: The comparator query
         :return: SQLAlchemy expression or None if handled via JOIN
         """
+        self._refuse_comparison_between_variables_of_one_table(query)
         if self._is_attribute_equality_join(query):
             join_result = self._handle_attribute_equality_join(query)
             if join_result is not None:
@@ -530,6 +545,31 @@ class EQLTranslator:
 
         mapper = OperatorMapper()
         return mapper.map_comparison_operator(operation, left, right)
+
+    def _refuse_comparison_between_variables_of_one_table(self, query: Comparator):
+        """
+        A comparison between attributes of two different variables whose classes are stored in the same table would
+        need an alias for one of them, without it both sides refer to the same row.
+
+        :param query: The comparator query
+        :raises UnsupportedQueryTypeError: If the comparison cannot be expressed
+        """
+        if not (isinstance(query.left, Attribute) and isinstance(query.right, Attribute)):
+            return
+        resolver = AttributeChainResolver()
+        if resolver.extract_leaf_variable(query.left) is resolver.extract_leaf_variable(
+            query.right
+        ):
+            return
+        left_dao = resolver.extract_base_dao(query.left)
+        right_dao = resolver.extract_base_dao(query.right)
+        if left_dao is None or right_dao is None:
+            return
+        if issubclass(left_dao, right_dao) or issubclass(right_dao, left_dao):
+            raise UnsupportedQueryTypeError(
+                f"Comparisons between two variables of the same table ({left_dao.__name__}, {right_dao.__name__}) "
+                f"are not supported."
+            )
 
     def _is_attribute_equality_join(self, query: Comparator) -> bool:
         """
@@ -576,6 +616,12 @@ class EQLTranslator:
         if left_rel is None or right_rel is None:
             return None
 
+        if self.disjunction_depth > 0:
+            raise UnsupportedQueryTypeError(
+                "A comparison between relationships of two variables is translated to a JOIN, which cannot be an operand "
+                "of or_."
+            )
+
         anchor_dao = get_dao_class(self.select_like.selected_variable._type_)
         if anchor_dao is None:
             raise MissingDAOError("Selected variable has no DAO class")
@@ -609,6 +655,11 @@ class EQLTranslator:
         if isinstance(operand, Variable):
             extractor = DomainValueExtractor(self.session)
             return extractor.extract_from_variable(operand)
+
+        if isinstance(operand, SymbolicExpression):
+            raise UnsupportedQueryTypeError(
+                f"Cannot translate an operand of type {type(operand)}"
+            )
 
         return operand
 
@@ -681,6 +732,10 @@ class EQLTranslator:
         while isinstance(node, Attribute):
             names.append(node._attr_name_)
             node = node._child_
+        if not isinstance(node, Variable):
+            raise UnsupportedQueryTypeError(
+                f"Only attribute chains that start at a variable can be translated, got {type(node)}"
+            )
         return list(reversed(names))
 
     def _extract_base_class(self, query: Attribute) -> Optional[type]:
